@@ -145,6 +145,12 @@ theorem tok_jstep {cfg : Cfg} {s s' : St} {j : Nat} (hm : MergerOk cfg.merge) (h
       apply tok_setPc ht hj
       · tokjob
       · intro hc; rw [hk] at hc; cases hc
+    · next hk =>
+      cases hst
+      unfold jRollupStart
+      apply tok_setJob ht
+      · tokjob
+      · intro _ hst'; simp [started] at hst' ⊢; simp_all
   case h_2 hpc => -- picked
     cases hst
     unfold jPicked
@@ -245,6 +251,9 @@ theorem tok_jstep {cfg : Cfg} {s s' : St} {j : Nat} (hm : MergerOk cfg.merge) (h
     split at hst
     · cases hst
       exact tok_frame (tok_pcMove .cUnlocked .closeOwn hs ht hj hpc (by decide) (by decide) (by decide) (by decide) (by decide) (by decide))
+        rfl rfl rfl rfl (Nat.le_refl _) rfl rfl rfl
+    · cases hst
+      exact tok_frame (tok_pcMove .cUnlocked .doStart hs ht hj hpc (by decide) (by decide) (by decide) (by decide) (by decide) (by decide))
         rfl rfl rfl rfl (Nat.le_refl _) rfl rfl rfl
     · cases hst
       exact tok_frame (tok_pcMove .cUnlocked .done hs ht hj hpc (by decide) (by decide) (by decide) (by decide) (by decide) (by decide))
